@@ -80,6 +80,16 @@ extern "C" fn k_close(fd: c_int) -> c_int {
     0
 }
 
+/// Linux releases the descriptor even when close() reports EINTR or EIO (close(2)): the number can be handed to a new socket
+/// although the call "failed".
+extern "C" fn k_close_interrupted(fd: c_int) -> c_int {
+    unsafe {
+        KERNEL[slot(fd)] = Opt { rcv: ZERO_TV, snd: ZERO_TV };
+    }
+    set_errno(libc::EINTR);
+    -1
+}
+
 fn s_del_event(_fd: c_int) -> std::io::Result<()> {
     unsafe { DEL_EVENT_CALLS += 1 };
     Ok(())
@@ -154,7 +164,8 @@ fn any_tv() -> libc::timeval {
 }
 
 /// One operation of the history. kind: 0 set RCVTIMEO, 1 set SNDTIMEO, 2 query recv limit (what hooked
-/// reads apply), 3 query send limit, 4 close (the number is then reused by a fresh socket).
+/// reads apply), 3 query send limit, 4 close (the number is then reused by a fresh socket), 5 a close that the kernel reports
+/// as interrupted (-1/EINTR) although it released the descriptor (Linux), followed by the same reuse.
 fn step(kind: u8, fd: c_int) {
     unsafe {
         match kind {
@@ -183,6 +194,11 @@ fn step(kind: u8, fd: c_int) {
             3 => {
                 let got = send_time_limit(fd);
                 kani::assert(got == want_limit(&KERNEL[slot(fd)].snd), "the send limit applied equals the socket's current SO_SNDTIMEO (0 = unlimited)");
+            }
+            5 => {
+                let f: extern "C" fn(c_int) -> c_int = k_close_interrupted;
+                let r = close(Some(&f), fd);
+                kani::assert(r == -1, "close returns the kernel's result");
             }
             _ => {
                 let f: extern "C" fn(c_int) -> c_int = k_close;
@@ -332,3 +348,4 @@ c19_step!(c19_step_set_sndtimeo, 1);
 c19_step!(c19_step_query_recv_limit, 2);
 c19_step!(c19_step_query_send_limit, 3);
 c19_step!(c19_step_close_and_reuse, 4);
+c19_step!(c19_step_close_interrupted_and_reuse, 5);
